@@ -95,13 +95,26 @@ it.  The driver judges this clause unconditionally. -/
 theorem bounds_in_domain (par : Parent ℝ) (s s' : DD ℝ) (hs : Pre s) (h : discretize par s = .ok s') :
     boundsInDom s' = true := discretize_bounds_in_dom par s s' hs.n_pos hs.dom_ordered h
 
+/-- **value_in_domain**: with mean-valued classes (or in the uniform fallback), where the comparator
+precision does not interfere (`resolved`), every class value lies in the domain — for *every*
+parent (no `H`: a class mean outside its bounds is replaced by their midpoint, the bounds are
+clamped into the domain).  The driver judges the clause on every state; outside `resolved` and for
+median-valued classes it is false of the code (known findings C09-separated-value-outside-domain,
+-low-mass, C09-median-value-beyond-domain-end: a class value *above the end of the support*). -/
+theorem value_in_domain (par : Parent ℝ) (s s' : DD ℝ) (hs : Pre s)
+    (hm : s.median = false ∨ Scalar.eqb (par.P s.dom.hi) (par.P s.dom.lo) = true)
+    (hr : resolved par s = true) (h : eqProp par s = .ok s') : valuesInDom s' = true :=
+  eqProp_values_in_dom par s s' hs.n_pos hs.prec_nonneg hs.dom_ordered hm hr h
+
 /-- **value_in_own_class** — `_partial`.  Full clause wanted: after every discretisation each class
 value lies in its own class interval.  Proved: for mean-valued classes (and for the uniform fallback,
 whatever the median flag) *where the comparator precision does not interfere* (`resolved`: no
 adjustment at the ends of the domain, raw values further apart than the precision).  Outside the
-guard the clause is false of the code: on a domain narrower than `n·precision` the separation loop
-of `insertClass_` moves class values by at least the precision, out of their class and out of the
-domain (`separated_value_outside_class_witness`, known finding C09-separated-value-outside-class);
+guard the clause is false of the code: the separation loop of `insertClass_` moves class values by at
+least the precision, out of their class and possibly out of the domain — on a domain narrower than
+`n·precision` (`separated_value_outside_class_witness`, known finding C09-separated-value-outside-class),
+and on an ordinary domain whose first classes are narrower than the precision (Gamma(0.1, ·) with
+19–32 classes: known finding C09-class-narrower-than-precision);
 for rescaled medians see `value_in_own_class_median_partial`.  One-step only: the clause is not
 part of `Valid`, hence of no history theorem. -/
 theorem value_in_own_class_partial (par : Parent ℝ) (s s' : DD ℝ) (hs : Pre s)
